@@ -57,7 +57,10 @@ func (s *c09Stream) ReassemblyComplete(ac AssemblerContext) bool {
 	return true
 }
 
-type c09Factory struct{ streams []*c09Stream; keep bool }
+type c09Factory struct {
+	streams []*c09Stream
+	keep    bool
+}
 
 func (f *c09Factory) New(n, t gopacket.Flow, tcp *layers.TCP, ac AssemblerContext) Stream {
 	s := &c09Stream{keep: f.keep}
@@ -84,6 +87,8 @@ func c09History(k int, flushes bool, keep bool) {
 	a.AssembleWithContext(c09Net, &layers.TCP{Seq: isn, SYN: true}, ctx)
 	arrived := make([]bool, c09W+3)
 	flushed := false
+	midFlush := false // a flush happened before all segments had arrived
+	delivered := make([]bool, c09W+3)
 	for i := 0; i < k; i++ {
 		o := verifInt("o", 0, c09W-1)
 		l := verifInt("l", 0, 3)
@@ -96,6 +101,7 @@ func c09History(k int, flushes bool, keep bool) {
 		if flushes && verifChoose(2) == 1 {
 			a.FlushWithOptions(FlushOptions{T: ts.Add(time.Second)})
 			flushed = true
+			midFlush = true
 		}
 	}
 	if flushes {
@@ -126,12 +132,24 @@ func c09History(k int, flushes bool, keep bool) {
 		if c.skip != 0 {
 			verifAssert(flushed, "gaps are skipped only on flush")
 			verifAssert(c.skip > 0, "skip is a positive byte count")
+			if !midFlush {
+				// every segment had arrived when the gap was skipped: the
+				// announced gap consists of bytes that never arrived
+				ok := true
+				for j := 0; j < c09W+3; j++ {
+					ok = verifAnd(ok, verifImplies(verifAnd(j >= pos, j < pos+c.skip), !arrived[j]))
+				}
+				verifAssert(ok, "a skip announces only bytes that never arrived")
+			}
 			pos += c.skip
 		}
 		nw := c.b[c.saved:]
 		verifAssert(pos+len(nw) <= c09W+3, "delivered bytes lie inside the stream")
 		for j := range nw {
 			verifAssert(nw[j] == S[pos+j], "new bytes are the sender's bytes at that position")
+		}
+		for j := 0; j < c09W+3; j++ {
+			delivered[j] = verifOr(delivered[j], verifAnd(j >= pos, j < pos+len(nw)))
 		}
 		pos += len(nw)
 		kept = 0
@@ -144,12 +162,19 @@ func c09History(k int, flushes bool, keep bool) {
 		contig = verifIte(verifAnd(contig == j, arrived[j]), j+1, contig)
 	}
 	verifAssert(pos >= contig, "every contiguously arrived byte was delivered")
+	if flushes && !midFlush {
+		ok := true
+		for j := 0; j < c09W+3; j++ {
+			ok = verifAnd(ok, verifImplies(arrived[j], delivered[j]))
+		}
+		verifAssert(ok, "after flush-all every byte that arrived was delivered")
+	}
 	verifReached("history")
 }
 
-func verif_C09_hist2()       { c09History(2, false, false) }
-func verif_C09_hist2_keep()  { c09History(2, false, true) }
-func verif_C09_hist3()       { c09History(3, false, false) }
-func verif_C09_hist2_flush() { c09History(2, true, false) }
-func verif_C09_hist3_flush() { c09History(3, true, true) }
+func verif_C09_hist2()            { c09History(2, false, false) }
+func verif_C09_hist2_keep()       { c09History(2, false, true) }
+func verif_C09_hist3()            { c09History(3, false, false) }
+func verif_C09_hist2_flush()      { c09History(2, true, false) }
+func verif_C09_hist3_flush()      { c09History(3, true, true) }
 func verif_C09_hist2_flush_keep() { c09History(2, true, true) }
